@@ -48,36 +48,49 @@ fn sym_leaf(allow_nan: bool) -> Value<'static> {
     }
 }
 
+fn has_nan(v: &Value<'_>) -> bool {
+    matches!(v, Value::F64(f) if f.is_nan())
+}
+
+/// The listed finding D7 is confined to `==` on NaN payloads (derived PartialEq): the equality-related assertions
+/// are restricted to NaN-free operands; the ordering laws are asserted for *all* values, NaN included.
 fn laws(a: &Value<'_>, b: &Value<'_>, c: &Value<'_>) {
-    // equality is an equivalence
-    assert!(a == a, "equality is not reflexive");
-    assert!((a == b) == (b == a), "equality is not symmetric");
-    if a == b && b == c {
-        assert!(a == c, "equality is not transitive");
+    let nan_free = !has_nan(a) && !has_nan(b) && !has_nan(c);
+    if nan_free {
+        // equality is an equivalence
+        assert!(a == a, "equality is not reflexive");
+        assert!((a == b) == (b == a), "equality is not symmetric");
+        if a == b && b == c {
+            assert!(a == c, "equality is not transitive");
+        }
     }
-    // total order consistent with equality
+    // total order (for every value, NaN included)
     let ab = a.cmp(b);
     let ba = b.cmp(a);
+    assert!(a.cmp(a) == Ordering::Equal, "ordering is not reflexive");
     assert!(ab == ba.reverse(), "ordering is not antisymmetric");
-    assert!((ab == Ordering::Equal) == (a == b), "ordering is not consistent with equality");
     if ab != Ordering::Greater && b.cmp(c) != Ordering::Greater {
         assert!(a.cmp(c) != Ordering::Greater, "ordering is not transitive");
     }
-    // equal values hash equally (+0.0 / -0.0 included)
-    if a == b {
-        assert!(h(a) == h(b), "equal values hash differently");
+    if nan_free {
+        assert!((ab == Ordering::Equal) == (a == b), "ordering is not consistent with equality");
+        // equal values hash equally (+0.0 / -0.0 included)
+        if a == b {
+            assert!(h(a) == h(b), "equal values hash differently");
+        }
     }
-    kani::cover!(a == b && ab == Ordering::Equal, "equal pair");
+    kani::cover!(nan_free && a == b && ab == Ordering::Equal, "equal pair");
     kani::cover!(ab == Ordering::Less, "ordered pair");
+    kani::cover!(has_nan(a) && !has_nan(b), "NaN vs number");
 }
 
 #[kani::proof]
 #[kani::unwind(10)]
 #[kani::stub(alloc::fmt::format, no_format)]
 fn c08_leaf_laws() {
-    let a = sym_leaf(false);
-    let b = sym_leaf(false);
-    let c = sym_leaf(false);
+    let a = sym_leaf(true);
+    let b = sym_leaf(true);
+    let c = sym_leaf(true);
     laws(&a, &b, &c);
     core::mem::forget((a, b, c));
 }
